@@ -531,6 +531,28 @@ def _mof_escaped(strvalue):
     return escaped_str
 
 
+def _mof_safe_split_pos(escaped_str, split_pos):
+    """
+    Return the largest position up to `split_pos` in the MOF-escaped string
+    `escaped_str` after which the string can be split without splitting an
+    escape sequence (e.g. ``\\n`` or ``\\x001F``). If the string begins with an
+    escape sequence that is longer than that, the end of that escape sequence
+    is returned.
+    """
+    i = 0
+    safe_pos = -1
+    while i <= split_pos and i < len(escaped_str):
+        if escaped_str[i] == '\\':
+            length = 6 if escaped_str[i + 1:i + 2] in ('x', 'X') else 2
+        else:
+            length = 1
+        end = i + length - 1
+        if end <= split_pos or safe_pos < 0:
+            safe_pos = end
+        i += length
+    return safe_pos
+
+
 def mofstr(value, indent=MOF_INDENT, maxline=MAX_MOF_LINE, line_pos=0,
            end_space=0, avoid_splits=False, quote_char='"'):
     """
@@ -633,8 +655,9 @@ def mofstr(value, indent=MOF_INDENT, maxline=MAX_MOF_LINE, line_pos=0,
         # Split the string and output the next part
         split_pos = value.rfind(' ', 0, avl_len)
         if split_pos < 0:
-            # We have to split within a word
-            split_pos = avl_len - 1
+            # We have to split within a word, but not within an escape
+            # sequence
+            split_pos = _mof_safe_split_pos(value, avl_len - 1)
         part_value = value[0:split_pos + 1]
         value = value[split_pos + 1:]
         mof.append(quote_char)
